@@ -175,15 +175,15 @@ fn run_executable<C: CellType, E: Executable<C>>(e: &E, input: &[u8], cfg: &RunC
     let z_before = galloc::ZCOUNT.load(std::sync::atomic::Ordering::SeqCst);
     let fin = match cfg.mode {
         Mode::Exec => {
-            e.execute(&mut cx).expect("execute returned Err");
+            e.execute(&mut cx).unwrap_or_else(|e| panic!("execute returned Err({:?}) at position {} for a balanced program", e.kind, e.position));
             None
         }
         Mode::Limited(b) => {
             cx.budget = b as usize;
-            Some(e.execute_limited(&mut cx).expect("execute_limited returned Err"))
+            Some(e.execute_limited(&mut cx).unwrap_or_else(|e| panic!("execute_limited returned Err({:?}) at position {} for a balanced program", e.kind, e.position)))
         }
         Mode::Unsafe(..) => {
-            unsafe { e.execute_unsafe(&mut cx).expect("execute_unsafe returned Err") };
+            unsafe { e.execute_unsafe(&mut cx).unwrap_or_else(|e| panic!("execute_unsafe returned Err({:?}) at position {}", e.kind, e.position)) };
             None
         }
     };
